@@ -733,7 +733,7 @@ class SweepMachine:
                 return st
         # ---- stores into psi.A[...] from expressions over temporaries
         for t in targets:
-            k = x.site_ref(t)
+            k = x.site_ref(t) if not isinstance(t, ast.Name) else None      # rebinding a local name stores nothing
             if k is None and isinstance(t, ast.Subscript) and x.site_ref(t.value) is not None:
                 # psi.A[k][...] = value: the existing array is written in place - it keeps its dtype and shape, whereas
                 # the factors of a QR / the results of the local steps may be complex and of a different bond dimension
@@ -781,6 +781,9 @@ class SweepMachine:
             if isinstance(value, ast.Call) and norm(value.func) in ('np.transpose',) and value.args and \
                     isinstance(value.args[0], ast.Name) and value.args[0].id in x.temps:
                 x.temps[nm] = x.temps[value.args[0].id]
+            elif isinstance(value, ast.Name) and x.temps.get(value.id) and \
+                    x.temps[value.id][0] in ('bondmat', 'qfactor', 'label', 'local_result', 'pending_site', 'site_alias', 'site_view'):
+                x.temps[nm] = x.temps[value.id]         # a second name for the same value
             elif x.site_ref(value, self.ham) is not None:
                 kk = x.site_ref(value, self.ham)
                 x.temps[nm] = ('merged_op', kk, kk)
@@ -1123,6 +1126,10 @@ class SweepMachine:
             break
         if seen and isinstance(e, ast.Subscript):
             return self.x.site_ref(e)
+        if seen and isinstance(e, ast.Name):
+            t = self.x.temps.get(e.id)
+            if t and t[0] in ('site_alias', 'site_view') and (t[0] == 'site_view' or t[2] == self.psi):
+                return t[1]
         return None
 
     def inline_qr(self, s, targets, value, st):
